@@ -305,6 +305,7 @@ def failing_theorems(props_path, build_out):
     """Map lean error lines in build output to enclosing theorem names."""
     rel = os.path.relpath(props_path, LEAN)
     lines = [int(m.group(1)) for m in re.finditer(re.escape(rel) + r":(\d+):\d+: error", build_out)]
+    lines += [int(m.group(1)) for m in re.finditer(r"error: " + re.escape(rel) + r":(\d+):\d+", build_out)]
     if not lines:
         return []
     src = open(props_path).read().split("\n")
